@@ -153,12 +153,12 @@ def run_exhaustive(ctx, sau, spec):
 
 def gen_huge(rng):
     """one sample per second for a day: more than 2**16 elements (and, in half of the cases, more than 2**16 queries)"""
-    n = int(rng.integers(66000, 90001))
+    n = gen.huge_size(rng)
     x = np.cumsum(rng.uniform(0.5, 1.5, n)) + float(rng.normal(0, 100))
     k = int(rng.integers(66000, 70000)) if rng.integers(0, 2) else int(rng.integers(20, 200))
     picks = rng.integers(0, n, k)
     # always some questions right at round element numbers (inside the gaps before / after elements 2**15, 2**16, 50 000)
-    edges = np.array([2 ** 16 - 1, 2 ** 16, 2 ** 16 + 1, 2 ** 15 - 1, 2 ** 15, 49999, 50000, 60000])
+    edges = np.array([e for e in (2 ** 16 - 1, 2 ** 16, 2 ** 16 + 1, 2 ** 15 - 1, 2 ** 15, 49999, 50000, 60000) if e < n - 1])
     picks[:len(edges) * 2] = np.repeat(edges, 2)
     picks = np.sort(picks)
     qs = x[picks] + rng.choice([0.0, 0.2, -0.2, 0.45], k)
@@ -288,9 +288,16 @@ def run_random_case(ctx, sau, kind, idx):
     if kind == "huge":
         strategy, fill = COMBOS[idx % 5]
     via = bool(rng.integers(0, 2))
-    cont = int(rng.integers(0, 3))
+    cont = int(rng.integers(0, 5))
     xx = x if cont != 1 else [v.item() for v in x]
     qq = qs if (cont != 2 or isinstance(qs, list)) else [v.item() for v in qs]
+    if cont == 3 and kind != "huge":
+        # list(column): plain lists whose elements are still NumPy scalars of the column's (possibly narrow) type
+        xx = list(x) if isinstance(x, np.ndarray) else xx
+        qq = list(qs) if isinstance(qs, np.ndarray) and rng.integers(0, 2) else qq
+        ctx.count("container:list_of_numpy_scalars")
+    elif cont == 4 and kind != "huge" and isinstance(qs, np.ndarray):
+        qq = list(qs)
     form = int(rng.integers(0, 3))
     case = ctx.case_id(kind, idx, strategy=strategy, fill=fill, dispatch=via)
     _one(ctx, sau, case, xx, qq, gen.fresh_str(rng, strategy), fill, via, form, twice=bool(rng.integers(0, 6) == 0))
